@@ -584,6 +584,11 @@ M('C11', 'dagger ignores the implicit h.c.', MPO,
   "        # complex conjugate and transpose everything", 'HCFLAG-derived')
 
 # ---------------------------------------------------------------- C13
+M('C13', 'mixer identity weight ignores explicit_plus_hc', MC,
+  "    one = 1.0 if not H.explicit_plus_hc else 0.5", "    one = 1.0", 'HCFLAG-mixer')
+M('C13', 'mixer identity weight as if/else (equivalent)', MC,
+  "    one = 1.0 if not H.explicit_plus_hc else 0.5",
+  "    if H.explicit_plus_hc:\n        one = 0.5\n    else:\n        one = 1.0", None, 'silent')
 M('C13', 'update_env deletes LP on the left index', MC, "            env.del_LP(i_R)", "            env.del_LP(i_L)",
   'HOOKS-env-pairing')
 M('C13', 'update_env indices: and instead of or', MC, "        if n == 2 or move_right:", "        if n == 2 and move_right:",
